@@ -148,7 +148,7 @@ func genHtml(r *Rng, n int) string {
 		case k == 17:
 			b.WriteString("<!--" + pick(r, []string{"c", "", " x ", "a-b", "<div>"}) + "-->")
 		case k == 18:
-			b.WriteString(pick(r, []string{"<script>if (a<b) {}</script>", "<style>p>a{}</style>", "<textarea><b>x</textarea>", "<![CDATA[x]]>", "<?php x ?>", "</html><!-- after html -->", "</body>trailing"}))
+			b.WriteString(pick(r, []string{"<script>if (a<b) {}</script>", "<style>p>a{}</style>", "<noscript><p>no <b>script</b></p><img src=x></noscript>", "<head><noscript><link rel=x><style>a{}</style></noscript></head>", "<noscript>plain</noscript>", "<textarea><b>x</textarea>", "<![CDATA[x]]>", "<?php x ?>", "</html><!-- after html -->", "</body>trailing"}))
 		default:
 			b.WriteString("<" + pick(r, []string{"", "1", "/", "!", "a b=", "a b='"}))
 		}
